@@ -19,6 +19,7 @@ package ast
 //@ fields_copied (*Vars).DeepCopy                 [C08,C09,C10,C11]
 //@   skipfield mutex a copy gets its own, unlocked mutex
 //@ fields_copied (*Matrix).DeepCopy               [C08]
+//@ fields_copied *                                [C08,C05]   -- any other DeepCopy method of this package, present or future
 
 //@ nonnil elem:*github.com/go-task/task/v3/taskfile/ast.Glob elem:*github.com/go-task/task/v3/taskfile/ast.Platform elem:*github.com/go-task/task/v3/taskfile/ast.VarsWithValidation
 
@@ -238,11 +239,29 @@ package ast
 //@ func (*TaskfileGraph).Merge
 //@   nosite graph.TopologicalSort                                                                              [C09]
 //@   site graph.StableTopologicalSort#1 requires arg0 == tfg.Graph                                             [C09]
+// The merges of one Taskfile into its several parents run one after the other: each goroutine handed to the
+// group is awaited before the next one is started (Vars.Merge stamps the include dir on the SHARED variables of
+// the included file before copying them, so two merges at once would see each other's dir).
+//@   init pendingMerges := 0
+//@   site (*Group).Go#1 requires pendingMerges == 0                                                            [C09,C18]
+//@   site (*Group).Go#1 ghost pendingMerges := pendingMerges + 1
+//@   site (*Group).Wait#1 ghost pendingMerges := 0
+//@   loop 1 invariant pendingMerges == 0
+//@   loop 2 invariant pendingMerges == 0
 
 // When one parent includes the same file several times, those includes are merged in the order of the
 // parent's include statements: the list the reader collected (in goroutine completion order) is sorted first,
 // and the list that is merged is that sorted list.
 //@ ghost var sortedIncl []*Include scratch
+//@ ghost var pendingMerges int scratch
 //@ func (*TaskfileGraph).Merge$2
 //@   site slices.SortStableFunc#1 ghost sortedIncl := arg0
 //@   site (*Taskfile).Merge#1 requires includes == sortedIncl && arg2 == includes[$i]                          [C09]
+
+// ---- C06 / C08: merging an included Taskfile adds its tasks and variables to the parent; it never rewrites an
+// attribute (run:, method:, ...) of a task the parent already has
+//@ func (*Taskfile).Merge
+//@   site (*Tasks).Merge#1 requires arg0 == t1.Tasks && arg1 == t2.Tasks && arg2 == include && arg3 == t1.Vars       [C08,C10]
+//@   nosite (*Tasks).All            -- the tasks are touched by Tasks.Merge only (which copies), never walked over here  [C06,C08]
+//@   nosite (*Tasks).Values                                                                                             [C06,C08]
+//@   nosite (*Tasks).Get                                                                                                [C06,C08]
